@@ -23,4 +23,7 @@ require (
 
 replace github.com/skycoin/skycoin => /repo
 
+// bolt v1.3.1 with one change: child buckets are spilled in name order, not map order (deterministic file layout)
+replace github.com/boltdb/bolt => ./third_party/bolt
+
 godebug randseednop=0
